@@ -40,6 +40,8 @@ SHAPES = {
     "pipe": ["nope | e(%(k)d)"],
     "lambda": ["(lambda: {1: e(%(k)d)})()[1]"],
     "multiline": ["e(%(k)d,\n   1)", "\n  e(%(k)d)\n", "e(\n%(k)d\n)"],
+    # the very same expression text at every occurrence: each occurrence is an evaluation of its own
+    "samecall": ["e(77)"],
 }
 
 
@@ -54,6 +56,8 @@ def shape_text(shape, k, ctx, rnd):
 
 
 def shape_value(shape, k):
+    if shape == "samecall":
+        return "v77"
     v = "v%d" % k
     if shape == "stringexpr":
         return "a" + v + "b"
@@ -244,7 +248,7 @@ def _chunk(groups, seed, textfile):
         except Exception as ex:
             got = "EXC %s: %s" % (type(ex).__name__, str(ex).splitlines()[:1])
         n += 1
-        allowed = [(expected(rec, b, exprs, ch), b["evals"]) for b in g]
+        allowed = [(expected(rec, b, exprs, ch), [77 if rec["parts"][j - 1].get("s") == "samecall" else j for j in b["evals"]]) for b in g]
         if rec["ctx"] == "qcomment":
             # whether the '?' marker itself is kept is not fixed by the property
             allowed += [(w.replace("<!--x", "<!--?x", 1), ev) for w, ev in allowed]
